@@ -1,15 +1,15 @@
 SPECIFICATION Spec
 CONSTANTS
   Denoms = {"eth"}
-  Mods <- Mods0
+  Mods <- ModsAcceptAll
   AddrMode = "simple"
-  Stock = FALSE
-  MaxTx = 2
-  Fuel = 4
+  Stock = TRUE
+  MaxTx = 1
+  Fuel = 3
   Level = 2
-  Genesis <- Genesis0
-  CallMenu <- AtomCalls
-  BehMenu <- AtomMenu
+  Genesis <- GenesisRoute
+  CallMenu <- RouteCalls
+  BehMenu <- RouteMenu
 VIEW view
 INVARIANTS InvAtomic InvEffective InvReads InvReply InvEvents InvScriptUsed InvOneRespPerMsg InvPrivate InvConserve
 CHECK_DEADLOCK FALSE
